@@ -209,9 +209,12 @@ SoundSubpiece(x, low, size, r, seed) ==
 (***************************************************************************)
 Subset(x, y, seed) ==                 \* gamma(x) \subseteq gamma(y)
   /\ x.w = y.w
-  /\ \/ IvIsAll(y)
+  /\ \/ (x.s = y.s /\ x.e = y.e /\ x.st = y.st)             \* the same set (shortcut)
+     \/ IvIsAll(y)
      \/ /\ ~IvIsAll(x)
-        /\ LET yi == IvI(y) IN \A a \in Conc(x, seed, EnumLimit) : InG(a, y, yi)
+        /\ IF x.w <= 2
+           THEN LET xi == IvI(x)  yi == IvI(y) IN \A a \in GammaEnumI(xi) : InGammaI(a, yi)   \* every member
+           ELSE \A a \in Members(x, seed) : InGamma(a, y)                                  \* sampled members
 GammaEq(x, y, seed) == Subset(x, y, seed) /\ Subset(y, x, seed + 3)
 Upper(x, y, m, seed) == Subset(x, m, seed) /\ Subset(y, m, seed + 1)
 Idem(x, mxx, seed) == GammaEq(mxx, x, seed)
